@@ -49,6 +49,15 @@ pub(crate) fn move_formula(
     to_string_moved(node, move_context, locale, language)
 }
 
+/// The argument separator of the locale: the one the parser expects back
+fn arg_separator(locale: &Locale) -> &'static str {
+    if locale.numbers.symbols.decimal == "." {
+        ","
+    } else {
+        ";"
+    }
+}
+
 fn move_function(
     name: &str,
     args: &Vec<Node>,
@@ -61,8 +70,9 @@ fn move_function(
     for el in args {
         if !first {
             arguments = format!(
-                "{},{}",
+                "{}{}{}",
                 arguments,
+                arg_separator(locale),
                 to_string_moved(el, move_context, locale, language)
             );
         } else {
@@ -111,7 +121,13 @@ fn to_string_moved(
 ) -> String {
     use self::Node::*;
     match node {
-        BooleanKind(value) => format!("{value}").to_uppercase(),
+        BooleanKind(value) => {
+            if *value {
+                language.booleans.r#true.to_string()
+            } else {
+                language.booleans.r#false.to_string()
+            }
+        }
         NumberKind(number) => format_number_locale(*number, locale),
         StringKind(value) => format!("\"{value}\""),
         ReferenceKind {
@@ -437,38 +453,29 @@ fn to_string_moved(
             let mut first_row = true;
             let mut matrix_string = String::new();
 
-            // Each element in `args` is assumed to be one "row" (itself a `Vec<T>`).
+            // Same separators as the formula printer: the parser reads `\` as the row
+            // separator when the decimal separator is a comma
             let row_separator = if locale.numbers.symbols.decimal == "." {
                 ';'
             } else {
-                '/'
+                '\\'
             };
             let col_separator = if row_separator == ';' { ',' } else { ';' };
             for row in args {
                 if !first_row {
-                    matrix_string.push(col_separator);
+                    matrix_string.push(row_separator);
                 } else {
                     first_row = false;
                 }
-
-                // Build the string for the current row
                 let mut first_col = true;
-                let mut row_string = String::new();
                 for el in row {
                     if !first_col {
-                        row_string.push(row_separator);
+                        matrix_string.push(col_separator);
                     } else {
                         first_col = false;
                     }
-
-                    // Reuse your existing element-stringification function
-                    row_string.push_str(&to_string_array_node(el, locale, language));
+                    matrix_string.push_str(&to_string_array_node(el, locale, language));
                 }
-
-                // Enclose the row in braces
-                matrix_string.push('{');
-                matrix_string.push_str(&row_string);
-                matrix_string.push('}');
             }
 
             // Enclose the whole matrix in braces
@@ -493,7 +500,7 @@ fn to_string_moved(
                 to_string_moved(right, move_context, locale, language)
             ),
         },
-        ErrorKind(kind) => format!("{kind}"),
+        ErrorKind(kind) => kind.to_localized_error_string(language),
         ParseErrorKind { formula, .. } => formula.to_string(),
         EmptyArgKind => "".to_string(),
         ImplicitIntersection {
@@ -514,7 +521,7 @@ fn to_string_moved(
         LambdaDefKind { parameters, body } => {
             let mut parts: Vec<String> = parameters.iter().map(|p| p.name.clone()).collect();
             parts.push(to_string_moved(body, move_context, locale, language));
-            format!("LAMBDA({})", parts.join(","))
+            format!("LAMBDA({})", parts.join(arg_separator(locale)))
         }
         LambdaCallKind { lambda, args } => {
             let lambda_str = to_string_moved(lambda, move_context, locale, language);
@@ -522,7 +529,7 @@ fn to_string_moved(
                 .iter()
                 .map(|a| to_string_moved(a, move_context, locale, language))
                 .collect();
-            format!("{}({})", lambda_str, call_args.join(","))
+            format!("{}({})", lambda_str, call_args.join(arg_separator(locale)))
         }
     }
 }
